@@ -58,7 +58,9 @@ class ProbabilisticAgent(AbstractScriptedAgent, discriminator="probabilistic-age
         """Convenience method to view the probabilities of the Agent."""
         action_probabilities = self.config.agent_settings.action_probabilities
         # entry i is the probability of action i, whatever order the mapping was written in
-        return np.asarray([action_probabilities[i] for i in sorted(action_probabilities)])
+        p = np.asarray([action_probabilities[i] for i in sorted(action_probabilities)], dtype=float)
+        # (a table that passed the validator sums to 1 within 1e-6; numpy's sampler wants it much closer)
+        return p / p.sum()
 
     def get_action(self, obs: ObsType, timestep: int = 0) -> Tuple[str, Dict]:
         """
